@@ -130,7 +130,7 @@ pub fn gen_spec(ch: &mut Ch) -> WorldSpec {
     }
     // a byzantine sender
     if ch.chance(7, 10, "w.byz") {
-        let n = 1 + ch.below(30, "byz.n") as usize;
+        let n = 1 + ch.below(if thorough() { 100 } else { 30 }, "byz.n") as usize;
         let dgs: Vec<Vec<u8>> = (0..n).map(|_| byzantine_datagram(ch)).collect();
         let mut t = default_transfer(1, vec![], TKind::Raw { datagrams: dgs, gap_ns: (1 + ch.below(10, "byz.gap")) * MS });
         t.tag_kind = TagKind::Hostile;
